@@ -354,7 +354,9 @@ class RuntimeContext:
         if route is not None:
             # index 0 and the key '' are routes as well (not a new nesting level)
             self.routes.append(route)
-        else:
+        elif cls is not None:
+            # a nesting level is a data class: the root context of a plain conversion, of a rule or of a function
+            # call is none (max_depth must not depend on the entry point)
             self.depth += 1
 
         self.errors = []
